@@ -442,6 +442,7 @@ type Contract struct {
 	NoTypeInv  bool
 	OvfCheck   bool
 	Defines    []*Clause // naming clauses: assumed by callers, not checked in the body (the function is deterministic)
+	Unreachable map[string]string // obligation suffix (e.g. panic#0) -> reason: assumed unreachable, listed
 	AssumeInv  bool // type-invariant postconditions of this unit are assumed, not proved (listed)
 }
 
@@ -493,7 +494,7 @@ type SpecDB struct {
 
 var clauseKeywords = map[string]bool{"func": true, "requires": true, "ensures": true, "modifies": true, "allocbound": true,
 	"loop": true, "mode": true, "trusted": true, "prop": true, "pred": true, "lemma": true, "pure": true, "inline": true,
-	"split": true, "noverify": true, "ghost": true, "timeout": true, "opaque": true, "recpred": true, "oncall": true, "sweep": true, "typeinv": true, "notypeinv": true, "ovfcheck": true, "assumeinv": true, "defines": true}
+	"split": true, "noverify": true, "ghost": true, "timeout": true, "opaque": true, "recpred": true, "oncall": true, "sweep": true, "typeinv": true, "notypeinv": true, "ovfcheck": true, "assumeinv": true, "defines": true, "assume-unreachable": true}
 
 // LoadSpecs parses every verif_contracts*.go in dir (package name pkg).
 func LoadSpecs(db *SpecDB, dir, pkg string) error {
@@ -693,6 +694,16 @@ func loadSpecFile(db *SpecDB, file, pkg string) error {
 				fs := strings.Fields(rest)
 				cur.Split = fs[0]
 				cur.SplitVals = fs[1:]
+			case "assume-unreachable":
+				fs := strings.SplitN(rest, " ", 2)
+				if cur.Unreachable == nil {
+					cur.Unreachable = map[string]string{}
+				}
+				reason := ""
+				if len(fs) > 1 {
+					reason = fs[1]
+				}
+				cur.Unreachable[fs[0]] = reason
 			case "defines":
 				c, err := mk(rest)
 				if err != nil {
